@@ -56,20 +56,6 @@ func inlineCommentKind(r *core.Run) {
 			return true
 		})
 	})
-	isLine := func(e ast.Expr) bool {
-		return core.UsedObj(info, e) == lineConst
-	}
-	onlyLine := func(list []ast.Expr) bool {
-		if len(list) == 0 {
-			return false
-		}
-		for _, e := range list {
-			if !isLine(e) {
-				return false
-			}
-		}
-		return true
-	}
 	n := 0
 	core.AllFuncDecls(pk, func(fd *ast.FuncDecl) {
 		if fd.Body == nil {
@@ -96,6 +82,94 @@ func inlineCommentKind(r *core.Run) {
 				o.Auto("the formatter has no line-comment-only rendering of attached comments")
 				return true
 			}
+			how, whyNot := lineCommentEvidence(info, fd, cl, stack, lineConst)
+			if whyNot != "" {
+				o.Fail("%s", whyNot)
+				return true
+			}
+			if how != "" {
+				o.Auto("%s", how)
+			} else {
+				o.Fail("the token is not known to be a line comment here: a block comment attached this way is re-rendered as ` //`+text, its further lines become source text and its end marker is lost")
+			}
+			return true
+		})
+	})
+	r.Floor("R-SYM/commentkind", 1, "endStatement")
+}
+
+func identOf(info *types.Info, fd *ast.FuncDecl, obj types.Object) *ast.Ident {
+	var out *ast.Ident
+	ast.Inspect(fd, func(n ast.Node) bool {
+		if id, ok := n.(*ast.Ident); ok && out == nil && info.ObjectOf(id) == obj {
+			out = id
+		}
+		return out == nil
+	})
+	return out
+}
+
+func enclosingSwitch(stack []ast.Node) *ast.SwitchStmt {
+	for i := len(stack) - 1; i >= 0; i-- {
+		if sw, ok := stack[i].(*ast.SwitchStmt); ok {
+			return sw
+		}
+	}
+	return nil
+}
+
+// firstPopIn: obj is defined in the clause by the first call of a method named popToken in it.
+func firstPopIn(info *types.Info, cc *ast.CaseClause, obj types.Object) bool {
+	var first *ast.CallExpr
+	for _, st := range cc.Body {
+		ast.Inspect(st, func(n ast.Node) bool {
+			if c, ok := n.(*ast.CallExpr); ok && first == nil && strings.HasSuffix(core.CalleeName(info, c), "popToken") {
+				first = c
+			}
+			return first == nil
+		})
+		if first != nil {
+			break
+		}
+	}
+	if first == nil {
+		return false
+	}
+	ok := false
+	for _, st := range cc.Body {
+		ast.Inspect(st, func(n ast.Node) bool {
+			if as, isAs := n.(*ast.AssignStmt); isAs && len(as.Lhs) == 1 && len(as.Rhs) == 1 && as.Rhs[0] == ast.Expr(first) {
+				if id, isId := as.Lhs[0].(*ast.Ident); isId && info.ObjectOf(id) == obj {
+					ok = true
+				}
+			}
+			return true
+		})
+	}
+	return ok
+}
+
+// lineCommentEvidence: why the token whose Lit the Comment literal cl takes is known to be a line
+// comment at that point ("" when it is not known; the second result says why not).
+func lineCommentEvidence(info *types.Info, fd *ast.FuncDecl, cl *ast.CompositeLit, stack []ast.Node, lineConst types.Object) (string, string) {
+	val := litKey(cl, "Value")
+	if val == nil {
+		return "", "the literal has no Value"
+	}
+	isLine := func(e ast.Expr) bool {
+		return core.UsedObj(info, e) == lineConst
+	}
+	onlyLine := func(list []ast.Expr) bool {
+		if len(list) == 0 {
+			return false
+		}
+		for _, e := range list {
+			if !isLine(e) {
+				return false
+			}
+		}
+		return true
+	}
 			sel, ok := core.Unparen(val).(*ast.SelectorExpr)
 			var tokObj types.Object
 			if ok && sel.Sel.Name == "Lit" {
@@ -104,8 +178,7 @@ func inlineCommentKind(r *core.Run) {
 				}
 			}
 			if tokObj == nil {
-				o.Fail("the text is not the Lit of a token variable: its kind cannot be established")
-				return true
+				return "", "the text is not the Lit of a token variable: its kind cannot be established"
 			}
 			isTokType := func(e ast.Expr) bool {
 				s, ok := core.Unparen(e).(*ast.SelectorExpr)
@@ -176,64 +249,5 @@ func inlineCommentKind(r *core.Run) {
 					}
 				}
 			}
-			if how != "" {
-				o.Auto("%s", how)
-			} else {
-				o.Fail("the token is not known to be a line comment here: a block comment attached this way is re-rendered as ` //`+text, its further lines become source text and its end marker is lost")
-			}
-			return true
-		})
-	})
-	r.Floor("R-SYM/commentkind", 1, "endStatement")
-}
-
-func identOf(info *types.Info, fd *ast.FuncDecl, obj types.Object) *ast.Ident {
-	var out *ast.Ident
-	ast.Inspect(fd, func(n ast.Node) bool {
-		if id, ok := n.(*ast.Ident); ok && out == nil && info.ObjectOf(id) == obj {
-			out = id
-		}
-		return out == nil
-	})
-	return out
-}
-
-func enclosingSwitch(stack []ast.Node) *ast.SwitchStmt {
-	for i := len(stack) - 1; i >= 0; i-- {
-		if sw, ok := stack[i].(*ast.SwitchStmt); ok {
-			return sw
-		}
-	}
-	return nil
-}
-
-// firstPopIn: obj is defined in the clause by the first call of a method named popToken in it.
-func firstPopIn(info *types.Info, cc *ast.CaseClause, obj types.Object) bool {
-	var first *ast.CallExpr
-	for _, st := range cc.Body {
-		ast.Inspect(st, func(n ast.Node) bool {
-			if c, ok := n.(*ast.CallExpr); ok && first == nil && strings.HasSuffix(core.CalleeName(info, c), "popToken") {
-				first = c
-			}
-			return first == nil
-		})
-		if first != nil {
-			break
-		}
-	}
-	if first == nil {
-		return false
-	}
-	ok := false
-	for _, st := range cc.Body {
-		ast.Inspect(st, func(n ast.Node) bool {
-			if as, isAs := n.(*ast.AssignStmt); isAs && len(as.Lhs) == 1 && len(as.Rhs) == 1 && as.Rhs[0] == ast.Expr(first) {
-				if id, isId := as.Lhs[0].(*ast.Ident); isId && info.ObjectOf(id) == obj {
-					ok = true
-				}
-			}
-			return true
-		})
-	}
-	return ok
+	return how, ""
 }
